@@ -26,6 +26,25 @@ def op_lattice(tier):
     # dilated kernels (dx, dy), symmetric and both asymmetric forms: the IFM block must cover the DILATED kernel in each axis
     kernels += [(3, 3, 1, 1, 2, 2), (3, 3, 1, 1, 1, 2), (3, 3, 1, 1, 2, 1), (2, 5, 1, 1, 1, 2)] if tier == "quick" else \
         [(kw, kh, s, s, dx, dy) for kw, kh in ((3, 3), (2, 5), (5, 2), (7, 7)) for s in (1, 2) for dx, dy in ((2, 2), (1, 2), (2, 1))]
+    # one-row feature maps with kernel height 1 and a vertical stride above 1 (the 1-D convolution block optimisation meets a stride that
+    # makes the IFM block taller than the OFM block)
+    oned = [(1, 64, 8), (1, 33, 16)]
+    for (oh, ow, oc) in oned:
+        for (kw, kh, sx, sy) in ((3, 1, 2, 2), (2, 1, 2, 2), (3, 1, 1, 2), (3, 1, 3, 3)):
+            ih, iw = (oh - 1) * sy + kh, (ow - 1) * sx + kw
+            for dt in ("i8", "i16"):
+                for trav in ("DEPTH_FIRST", "PART_KERNEL_FIRST"):
+                    s1 = oplists.conv_spec(X, Y, k=(kw, kh), s=(sx, sy), pad=(0, 0, 0, 0), hw=(ih, iw), cin=8, cout=oc, dt=dt, trav=trav)
+                    s1["block"] = None
+                    L.append(s1)
+                d1 = oplists.conv_spec(X, Y, k=(kw, kh), s=(sx, sy), pad=(0, 0, 0, 0), hw=(ih, iw), cin=oc, cout=oc, dt=dt)
+                d1["kind"] = "depthwise"
+                d1.pop("traversal", None)
+                d1["block"] = None
+                L.append(d1)
+                p1 = oplists.pool_spec("MAX", X, Y, k=(kw, kh), s=(sx, sy), hw=(ih, iw), c=oc, dt=dt)
+                p1["block"] = None
+                L.append(p1)
     for (oh, ow, oc) in shapes:
         for (kw, kh, sx, sy, dx, dy) in kernels:
             ih, iw = (oh - 1) * sy + (kh - 1) * dy + 1, (ow - 1) * sx + (kw - 1) * dx + 1
